@@ -516,6 +516,92 @@ var reuseProp = vp.Register(vp.Prop[ReuseCase]{
 
 func TestReuse(t *testing.T) { vp.Run(t, reuseProp) }
 
+// LongLineCase is a hosts source in which one line is around or above
+// bufio's 64 KiB token limit, parsed with a scan buffer of a given capacity.
+type LongLineCase struct {
+	Before  int  `json:"before"`   // ordinary lines before the long one
+	After   int  `json:"after"`    // ordinary lines after it
+	LineLen int  `json:"line_len"` // length of the long line without its terminator
+	Comment bool `json:"comment"`  // the long line is a comment
+	NoLF    bool `json:"no_lf"`    // the source does not end with LF
+	BufCap  int  `json:"buf_cap"`
+}
+
+// countingSet panics when it is told about more invalid lines than the source
+// can hold: an unbounded loop shows up at once instead of as a hang.
+type countingSet struct{ adds, invalid, budget int }
+
+func (s *countingSet) Add(*hostsfile.Record) { s.adds++ }
+func (s *countingSet) HandleInvalid(string, []byte, error) {
+	s.invalid++
+	if s.invalid > s.budget {
+		panic(fmt.Sprintf("HandleInvalid called %d times for a source of %d lines: Parse loops without bound", s.invalid, s.budget-2))
+	}
+}
+
+func checkLongLine(c LongLineCase) error {
+	var sb strings.Builder
+	for i := 0; i < c.Before; i++ {
+		fmt.Fprintf(&sb, "10.0.0.%d host%d.example\n", i, i)
+	}
+	if c.Comment {
+		sb.WriteString("# " + strings.Repeat("c", max(0, c.LineLen-2)))
+	} else {
+		sb.WriteString("10.1.1.1 " + strings.Repeat("a", max(0, c.LineLen-9-4)) + ".lan")
+	}
+	sb.WriteString("\n")
+	for i := 0; i < c.After; i++ {
+		fmt.Fprintf(&sb, "10.0.1.%d later%d.example\n", i, i)
+	}
+	src := sb.String()
+	if c.NoLF {
+		src = strings.TrimSuffix(src, "\n")
+	}
+	lines := c.Before + c.After + 1
+	done := make(chan error, 1)
+	go func() {
+		done <- call(fmt.Sprintf("hostsfile.Parse/NewDefaultStorage(%d lines, one of %d bytes, buffer capacity %d)", lines, c.LineLen, c.BufCap), func() {
+			e(hostsfile.Parse(&countingSet{budget: lines + 2}, strings.NewReader(src), make([]byte, 0, c.BufCap)))
+			e(hostsfile.Parse(&countingSet{budget: lines + 2}, strings.NewReader(src), nil))
+			_, err := hostsfile.NewDefaultStorage(strings.NewReader(src))
+			e(err)
+		})
+	}()
+	select {
+	case err := <-done:
+		if err != nil {
+			return err
+		}
+	case <-time.After(60 * time.Second):
+		return fmt.Errorf("HANG: hostsfile.Parse / NewDefaultStorage did not return within 60 s on a source of %d lines with one line of %d bytes (buffer capacity %d)", lines, c.LineLen, c.BufCap)
+	}
+	vp.Class("longline")
+	if c.LineLen >= 65536 {
+		vp.Class("longline:>=64KiB")
+		vp.NonTrivialStr("c01.longline", fmt.Sprint(c))
+		vp.Sample("longline", c)
+	}
+	return nil
+}
+
+var longLineProp = vp.Register(vp.Prop[LongLineCase]{
+	Kind: "c01.longline",
+	Base: 150,
+	Gen: func(t *rapid.T) LongLineCase {
+		return LongLineCase{
+			Before:  rapid.IntRange(0, 3).Draw(t, "before"),
+			After:   rapid.IntRange(0, 3).Draw(t, "after"),
+			LineLen: rapid.SampledFrom([]int{4095, 4096, 4097, 65534, 65535, 65536, 65537, 70000, 131072, 200000}).Draw(t, "len"),
+			Comment: rapid.Bool().Draw(t, "comment"),
+			NoLF:    rapid.Bool().Draw(t, "nolf"),
+			BufCap:  rapid.SampledFrom([]int{0, 1, 16, 4096, 65536, 65537, 100000, 300000}).Draw(t, "bufcap"),
+		}
+	},
+	Check: checkLongLine,
+})
+
+func TestLongLine(t *testing.T) { vp.Run(t, longLineProp) }
+
 // TestDictionary runs every hostile constant (and every pair with a few
 // second arguments) through the registry.
 func TestDictionary(t *testing.T) {
